@@ -5,6 +5,7 @@ import AtsimModel.Model.Poly
 import AtsimModel.Gen.Forms
 import AtsimModel.Gen.Combinators
 import AtsimModel.Gen.Splines
+import AtsimModel.Gen.Kernels
 namespace Atsim.Drv
 open Lean Atsim.Gen
 
@@ -64,6 +65,15 @@ def handleExpr (op : String) (j : Json) : Except String Json := do
     if (M.any fun r => r.any E.isBad) || V.any E.isBad then return Json.str "untranslatable"
     let ev := fun (e : E) => floatJ (E.evalF (fun i => ps.getD i 0.0) (fun _ => 0.0) 0.0 e)
     return Json.mkObj [("M", arrJ (M.map fun r => arrJ (r.map ev))), ("V", arrJ (V.map ev))]
+  | "kernel" =>
+    -- evaluate a regenerated arithmetic kernel at Float: name, points = [[operand0, operand1, ...], ...]
+    let name ← getStr j "name"
+    match kernelTable.find? (fun t => t.1 == name) with
+    | none => throw s!"unknown kernel {name}"
+    | some (_, e, _) =>
+      if e.isBad then return Json.str "untranslatable"
+      let pts ← (← getArr j "points").mapM fun p => do (← p.getArr?).toList.mapM getFloatME
+      return arrJ (pts.map fun ps => floatJ (E.evalF (fun i => ps.getD i 0.0) (fun _ => 0.0) 0.0 e))
   | "params" =>
     return arrJ (formTable.map fun (n, _, _, _, k) => arrJ [Json.str n, natJ k])
   | _ => throw s!"unknown expr op {op}"
